@@ -94,6 +94,13 @@ CLAIMED["C09"] = {
     "technique": "Coq proof over life-cycle model + extracted-facts tie + bit-exact history runs",
 }
 
+CLAIMED["C10"] = {
+    "text": "Coq theorems: (a) a printer/parser theorem for the meta strings - for EVERY integer, optional integer, list and tuple of integers of any length the modelled fragment of ast.literal_eval reads back what str() prints; (b) for QBytesTensor, QBitsTensor (with its nested PackedTensor) and PackedTensor, flattening under a prefix into ANY state_dict whose other keys do not carry that prefix and running the loader rebuilds exactly the same tensor and removes exactly its keys. The flatteners (__tensor_flatten__) and loaders (load_from_state_dict + __tensor_unflatten__) are TRANSLATED from the source on every run and tied by reflexivity; the module-level save/load, the recursive flattener, safe_save/safe_load and requantize are tied by AST fingerprint. Every meta string the implementation writes is checked against the str()/literal_eval models inside Coq and every frozen weight of every saved model is run through the generated loaders by vm_compute. Audit: typed state_dict values, three serializers, three kinds of target, second cycle, bit equality of every tensor and of the outputs.",
+    "note": "Trusted: Coq kernel + vm_compute; gen_ser.py; Model/Serial.v's pop/collect as the meaning of dict.pop and the startswith/replace comprehension; torch.save/safetensors as containers. Tensor CONTENTS are identified, not modelled (bit equality is the audit's). Theorems are axiom-free. Known findings F11 (requantize with quantized LayerNorm), F29 (unfrozen int2/int4 into default target loses the group size), F28 (parameterless LayerNorm in half precision).",
+    "design": "6/C10",
+    "technique": "Coq proof (printer/parser and flatten/unflatten round trips) over source-translated code + reflexivity tie + vm_compute correspondence + bit-exact reload audit",
+}
+
 NOT_YET = {}
 
 
